@@ -68,7 +68,11 @@ func (b *Builder) AddLink(requestID graphsync.RequestID, link ipld.Link, linkAct
 // as well as whether the graphsync request responded with complete or partial
 // data.
 func (b *Builder) AddResponseCode(requestID graphsync.RequestID, status graphsync.ResponseStatusCode) {
-	b.completedResponses[requestID] = status
+	// PartialResponse only says that more may follow: it never replaces a status (terminal or
+	// paused) that this message already carries for the request
+	if _, ok := b.completedResponses[requestID]; !ok || status != graphsync.PartialResponse {
+		b.completedResponses[requestID] = status
+	}
 	// make sure this completion goes out in next response even if no links are sent
 	_, ok := b.outgoingResponses[requestID]
 	if !ok {
